@@ -53,6 +53,8 @@ type c10state struct {
 	waiting  bool // body is parked in wait-cancel!
 	bodyCtx  context.Context // the context the body runs under (recorded by the probe! builtin)
 	callersDone int
+	tornDown    bool // the harness released a body that waits for a cancellation nobody issued
+	teardownAt  int  // clock value at that moment: operations returning later are not judged
 }
 
 func init() {
@@ -230,6 +232,23 @@ func init() {
 					}
 					return bodies
 				},
+				// when everybody is blocked only because the body waits for a cancellation that no
+				// (successful) future-cancel issued, the harness releases the body so that no
+				// goroutine is left behind; what returns after that moment is not judged
+				Idle: func(state any, s *vcore.Sched) bool {
+					st := state.(*c10state)
+					if st.tornDown || !st.waiting || st.fut == nil {
+						return false
+					}
+					for _, h := range st.hist {
+						if h.done && h.op == 3 && h.result == "true" {
+							return false
+						}
+					}
+					st.tornDown, st.teardownAt = true, st.clock
+					st.fut.CancelFunc()
+					return true
+				},
 				BlockedOK: func(state any, s *vcore.Sched) bool {
 					st := state.(*c10state)
 					// legitimate: the body waits for a cancellation nobody issued (successfully), and
@@ -259,6 +278,13 @@ func init() {
 				},
 				Check: func(state any, s *vcore.Sched) (string, string, string) {
 					st := state.(*c10state)
+					if st.tornDown {
+						for _, h := range st.hist {
+							if h.done && h.ret > st.teardownAt {
+								h.done = false // returned only because of the harness's teardown
+							}
+						}
+					}
 					var obs []string
 					for _, h := range st.hist {
 						r := h.result
@@ -363,7 +389,7 @@ func init() {
 						if st.fut.Cancelled {
 							return fail("cancelled flag set although no future-cancel succeeded")
 						}
-						if st.bodyCtx != nil && st.bodyCtx.Err() != nil {
+						if st.bodyCtx != nil && st.bodyCtx.Err() != nil && !st.tornDown {
 							return fail("the body's context was cancelled although no future-cancel succeeded")
 						}
 					}
